@@ -61,6 +61,11 @@ def _classes():
             self.setup_antenna(position=position)
             self.position = position
 
+        def front_end(self, signal):
+            # an attenuating front end: whether the SYSTEM is hit is decided on the processed waveform, not on what the bare
+            # antenna sees
+            return Signal(signal.times, 0.125 * np.asarray(signal.values), value_type=signal.value_type)
+
     class LineA(Detector):
         def set_positions(self, n, x=0.0):
             for i in range(n):
@@ -207,6 +212,8 @@ def _trigger_targets(obj, C):
 def _hit(ant, C, strong=True):
     """a pulse above (strong) or below the antennas' trigger threshold of 0.5"""
     a = 2.0 if strong else 0.125
+    if hasattr(ant, "antenna"):
+        a *= 16.0           # behind the x0.125 front end: 32 -> 4.0 (hit) / 2.0 -> 0.25 (no hit, though the bare antenna sees 2.0 > 0.5)
     sig = C["Signal"]([0.0, 1.0, 2.0, 3.0], [0.0, a, -a, 0.0], C["Signal"].Type.voltage)
     ant.receive(sig)
 
